@@ -65,7 +65,7 @@ class C08(Prop):
 
 
 class C19(Prop):
-    """Theorems (Props/C19.lean): the printing loop stated outright (exact/decimal number, space iff the unit has a numerator, plural only when the value is not one, one item per result, errors do not stop the loop) + correspondence between the real `any` binary and the model applied to the library's results."""
+    """Theorems (Props/C19.lean): the printing loop stated outright (exact/decimal number, space iff the unit has a numerator, plural only when the value is not one, one item per result, errors do not stop the loop) + correspondence between the real `any` binary and the model applied to the library's results. `C19_power_text`: the superscript digits the model writes for a unit power read back to exactly that power."""
     id = "C19"
     needs_knobs = True
     module = "Anything.Props.C19"
